@@ -7,7 +7,7 @@
 (*              first: [ok, t4, axis, sgn]]>>,                             *)
 (*   spheres: <<[c, m, hit]>>      (ball of radius m/2 around c)           *)
 (*   sdf:     <<[p, sgn, d2, np, axis, nsgn, bad]>>,                       *)
-(*   contains:<<[p, inside]>>]                                             *)
+(*   contains:<<[p, inside, mg]>>]  (mg: margin in half units, signed)      *)
 (* `bad` counts what the harness could not project exactly (a ray          *)
 (* parameter that is not a multiple of 1/4, a normal that is not a unit    *)
 (* axis vector, a squared distance that is not an integer).                *)
@@ -48,6 +48,17 @@ SphereOK(s) ==
     LET d2 == D2(V, P3(s.c)) IN
     (d2 < s.m * s.m => s.hit) /\ (d2 > s.m * s.m => ~s.hit)
 
+\* ColliderContains(p, margin mg/2): inside and further than the margin from the surface; with a negative margin
+\* also outside points closer than -margin.  Points at exactly the margin (and, without a margin, on the surface)
+\* are not decided.
+ContainsOK(q) ==
+    LET p == P3(q.p)
+        m2 == q.mg * q.mg IN
+    CASE q.mg = 0 -> Side(V, p) = "on" \/ q.inside = (Side(V, p) = "in")
+      [] V = {} -> ~q.inside
+      [] q.mg > 0 -> D2(V, p) = m2 \/ q.inside = (Side(V, p) = "in" /\ D2(V, p) > m2)
+      [] q.mg < 0 -> D2(V, p) = m2 \/ q.inside = (Side(V, p) = "in" \/ D2(V, p) < m2)
+
 SdfOK(c, q) ==
     LET p == P3(q.p) IN
     CASE c = "sdf-sign" -> Side(V, p) = "on" \/ (q.sgn = 1) = (Side(V, p) = "in")
@@ -75,8 +86,7 @@ Holds(c) ==
                              \/ \E k \in 1..3 : d[k] > 2 \/ d[k] < -2
                              \/ R.multi[i].hit = (\E h \in Hits(V, o, d) : h[1] <= 2)
       [] c \in {"sdf-sign", "sdf-dist", "sdf-point", "sdf-normal"} -> V = {} \/ \A i \in 1..Len(R.sdf) : SdfOK(c, R.sdf[i])
-      [] c = "contains" -> \A i \in 1..Len(R.contains) :
-                              Side(V, P3(R.contains[i].p)) = "on" \/ R.contains[i].inside = (Side(V, P3(R.contains[i].p)) = "in")
+      [] c = "contains" -> \A i \in 1..Len(R.contains) : ContainsOK(R.contains[i])
       [] OTHER -> TRUE
 Clauses == {"panic", "scan", "segment", "count", "hits", "first", "parity", "sphere", "sdf-sign", "sdf-dist", "sdf-point", "sdf-normal", "contains"}
 Fails == {c \in Clauses : ~Holds(c)}
